@@ -20,13 +20,23 @@ open Ak
 
 /-! ## printing -/
 
-def colToStr (c : Col) : List Char :=
-  c.field.name
-  ++ (match c.modifier with | some m => '/' :: m | Option.none => [])
-  ++ (if c.breakBy then ['!'] else [])
-  ++ (if c.minW = c.maxW then ':' :: natToDec c.minW
-      else ':' :: (natToDec c.minW ++ '-' :: natToDec c.maxW)
-        ++ (match c.width with | some w => '(' :: (natToDec w ++ [')']) | Option.none => []))
+def modStr : Option (List Char) → List Char
+  | some m => '/' :: m
+  | Option.none => []
+
+def brkStr (b : Bool) : List Char := if b then ['!'] else []
+
+/-- name, `/modifier`, `!` -/
+def colHead (c : Col) : List Char := c.field.name ++ modStr c.modifier ++ brkStr c.breakBy
+
+/-- `n`, or `min-max` followed by `(width)` once the width has been negotiated -/
+def widthStr (c : Col) : List Char :=
+  if c.minW = c.maxW then natToDec c.minW
+  else natToDec c.minW ++ '-' :: natToDec c.maxW
+    ++ (match c.width with | some w => '(' :: (natToDec w ++ [')']) | Option.none => [])
+
+/-- `ReprColumn.to_fmt_str` -/
+def colToStr (c : Col) : List Char := colHead c ++ ':' :: widthStr c
 
 def joinWith (sep : Char) : List (List Char) → List Char
   | [] => []
@@ -51,18 +61,24 @@ def fmtToStr (f : Fmt) : List Char :=
 
 /-! ## parsing -/
 
+/-- optional sign of `int(s)` -/
+def signSplit : List Char → Bool × List Char
+  | '-' :: r => (true, r)
+  | '+' :: r => (false, r)
+  | r => (false, r)
+
+/-- digits of `int(s)`: groups of ASCII digits separated by single underscores -/
+def parseDigits (body : List Char) : Option Nat :=
+  let gs := splitOn '_' body
+  if gs.all (fun g => !g.isEmpty && g.all Char.isDigit) then some (Nat.ofDigitChars 10 gs.flatten 0)
+  else Option.none
+
 /-- `int(s)`; ASCII digits only -/
 def parsePyInt (s : List Char) : Option Int :=
-  let t := strip s
-  let (neg, body) := match t with
-    | '-' :: r => (true, r)
-    | '+' :: r => (false, r)
-    | r => (false, r)
-  let gs := splitOn '_' body
-  if gs.all (fun g => !g.isEmpty && g.all Char.isDigit) then
-    let n : Int := Nat.ofDigitChars 10 gs.flatten 0
-    some (if neg then -n else n)
-  else Option.none
+  let p := signSplit (strip s)
+  match parseDigits p.2 with
+  | some n => some (if p.1 then -(n : Int) else (n : Int))
+  | Option.none => Option.none
 
 /-- position of the first `<-` -/
 def findArrow : List Char → Option Nat
@@ -112,41 +128,59 @@ def parseWidthNums : List (List Char) → Except Err (List Nat)
       .ok (n :: rest)
     | some (.negSucc _) => .error .outOfFuel
 
+/-- `"3-10(7)"` -> `"3-10"`: the width reported by `to_fmt_str` is informational -/
+def cutPrinted (wf : List Char) : List Char :=
+  if endsWith wf ')' && wf.contains '(' then strip (wf.takeWhile (· ≠ '(')) else wf
+
+/-- a number or a range -/
+def parseRange (wf : List Char) : Except Err PWidth :=
+  if (splitOn '-' wf).length > 2 then .error .valueError
+  else do
+    let ws ← parseWidthNums (splitOn '-' wf)
+    match ws with
+    | [a, b] => .ok (.range a b)
+    | [a] => .ok (.range a a)
+    | _ => .error .outOfFuel     -- `split` never returns an empty list
+
 def parseWidth (widthFmt : List Char) : Except Err PWidth :=
   if widthFmt = ['-', '1'] then .ok .hidden
   else if widthFmt.isEmpty then .ok .unspec
-  else
-    let wf := if endsWith widthFmt ')' && widthFmt.contains '(' then
-        strip (widthFmt.takeWhile (· ≠ '('))
-      else widthFmt
-    let chunks := splitOn '-' wf
-    if chunks.length > 2 then .error .valueError
-    else do
-      let ws ← parseWidthNums chunks
-      match ws with
-      | [a, b] => .ok (.range a b)
-      | [a] => .ok (.range a a)
-      | _ => .error .outOfFuel     -- `split` never returns an empty list
+  else parseRange (cutPrinted widthFmt)
+
+/-- `name<-path` -> name, path (both stripped) -/
+def splitArrow (fn : List Char) : List Char × Option (List Char) :=
+  match findArrow fn with
+  | some i => (strip (fn.take i), some (strip (fn.drop (i + 2))))
+  | Option.none => (fn, Option.none)
+
+/-- trailing `!` -/
+def splitBreak (fn : List Char) : List Char × Bool :=
+  if endsWith fn '!' then (fn.dropLast, true) else (fn, false)
+
+/-- `name/modifier` -/
+def splitModifier (fn : List Char) : List Char × Option (List Char) :=
+  if fn.contains '/' then
+    let nm := fn.takeWhile (· ≠ '/')
+    (nm, some (fn.drop (nm.length + 1)))
+  else (fn, Option.none)
+
+/-- the part of `_parse_col_fmt` that reads `name/modifier!<-path` -/
+def parseHead (fieldName : List Char) (width : PWidth) : PCol :=
+  let a := splitArrow fieldName
+  let b := splitBreak a.1
+  let m := splitModifier b.1
+  { fieldName := m.1, modifier := m.2, breakBy := b.2, valuePath := a.2, width }
 
 /-- `_parse_col_fmt` -/
-def parseCol (fmt : List Char) : Except Err PCol := do
-  let chunks := (splitOn ':' fmt).map strip
-  let (fieldName, widthFmt) ← (match chunks with
-    | [fn] => .ok (fn, [])
-    | [fn, wf] => .ok (fn, wf)
-    | _ => .error .valueError : Except Err (List Char × List Char))
-  let (fieldName, valuePath) := match findArrow fieldName with
-    | some i => (strip (fieldName.take i), some (strip (fieldName.drop (i + 2))))
-    | Option.none => (fieldName, Option.none)
-  let breakBy := endsWith fieldName '!'
-  let fieldName := if breakBy then fieldName.dropLast else fieldName
-  let (fieldName, modifier) :=
-    if fieldName.contains '/' then
-      let nm := fieldName.takeWhile (· ≠ '/')
-      (nm, some (fieldName.drop (nm.length + 1)))
-    else (fieldName, Option.none)
-  let width ← parseWidth widthFmt
-  .ok { fieldName, modifier, breakBy, valuePath, width }
+def parseCol (fmt : List Char) : Except Err PCol :=
+  match (splitOn ':' fmt).map strip with
+  | [fn] => do
+    let width ← parseWidth []
+    .ok (parseHead fn width)
+  | [fn, wf] => do
+    let width ← parseWidth wf
+    .ok (parseHead fn width)
+  | _ => .error .valueError
 
 def parseColList : List (List Char) → Except Err (List PCol)
   | [] => .ok []
